@@ -76,8 +76,21 @@ class Oracle:
     def told_delroute(self, iface, prefix, plen, nh):
         key = (iface, prefix, plen)
         info = self.routes.pop(key, None)
+        self._deleted = None
         if info is None:
             return
+        # Bookkeeping only (never flagged here: this need not be a quiescent
+        # point).  If the lookup table disagrees with what the controller had
+        # been told about this route at the moment it is deleted, reference
+        # counts for the next hop are off from here on; later oddities on that
+        # next hop are consequences.
+        g = self.b.tables.get(iface + "Routes", {}).get((prefix, plen))
+        present = g is not None and not ((prefix, plen) == DEFAULT_KEY and g == SINK_GATE) \
+            and self._gate_nh(iface + "Routes", g, self._ctl_updates()) == info.nh
+        if present == info.waiting:
+            self.tainted.add(info.nh)
+            self.probe("delroute_finds_table_out_of_step")
+        self._deleted = (info.waiting, info.nh, len(self.b.rpcs))
         if info.waiting:
             self.probe("delete_unresolved_route")
             self.del_waiting_nhs.add(info.nh)
@@ -90,20 +103,61 @@ class Oracle:
                           "nh": info.nh, "installed": not info.waiting}
 
     def told_newneigh(self, ip, mac):
+        self._released = None
         if mac is None:
             return
         if ip not in self.macs and not any(o.nh == ip for o in self.routes.values()):
             self.probe("neigh_event_before_route_event")
         self.macs[ip] = mac
         n = 0
-        for o in self.routes.values():
+        self._released = (ip, set(), len(self.b.rpcs))
+        for k, o in self.routes.items():
             if o.nh == ip and o.waiting:
                 o.waiting = False
+                self._released[1].add(k)
                 n += 1
         if n:
             self.probe("newneigh_releases_waiting_routes")
         if n > 1:
             self.probe("newneigh_releases_several_waiting_routes")
+
+    def after_delroute(self):
+        """Bookkeeping after the RTM_DELROUTE handler returned (no flagging): a
+        route that was still waiting for its next hop was never in BESS, so its
+        deletion must not touch BESS; if the handler nevertheless deleted a
+        lookup entry or tried to destroy a module, the next hop's reference
+        count is off from here on: taint it."""
+        d = getattr(self, "_deleted", None)
+        self._deleted = None
+        if d is None or not d[0]:
+            return
+        for (_, name, args, outcome) in self.b.rpcs[d[2]:]:
+            if name == "destroy_module" or (name == "run_module_command" and args[1] == "delete"):
+                self.tainted.add(d[1])
+                self.probe("delete_of_waiting_route_touched_bess")
+                return
+
+    def after_newneigh(self):
+        """Bookkeeping after the RTM_NEWNEIGH handler returned (no flagging):
+        a lookup add for a route that was NOT waiting on this next hop, but of
+        which the kernel deleted an incarnation while it waited on it, means the
+        deleted incarnation was installed (possibly on top of / in addition to
+        the live one).  Reference counts for the next hops involved are off
+        from here on: taint them."""
+        rel = getattr(self, "_released", None)
+        if rel is None:
+            return
+        ip, released, start = rel
+        self._released = None
+        for (_, name, args, outcome) in self.b.rpcs[start:]:
+            if name == "run_module_command" and args[1] == "add" and outcome == "ok":
+                a = dict(args[2])
+                key = (args[0][:-len("Routes")], a.get("prefix"), a.get("prefix_len"))
+                if key not in released and ip in self.ghosts.get(key, ()):
+                    self.tainted.add(ip)
+                    if key in self.routes:
+                        self.tainted.add(self.routes[key].nh)
+                    self.probe("deleted_incarnation_installed_on_resolution")
 
     # -- graph helpers ---------------------------------------------------------
     @staticmethod
@@ -219,8 +273,14 @@ class Oracle:
             actual = {k: g for k, g in tbl.items() if not (k == DEFAULT_KEY and g == SINK_GATE)}
             expected = {(p, l): o.nh for (i, p, l), o in self.routes.items() if i == ifn and o.nh in macs}
             # E1: membership
+            # Routes of a next hop that an EARLIER discrepancy of this run left with
+            # wrong bookkeeping are not judged again: what follows there is a
+            # consequence.  An independent defect shows up in runs without that
+            # earlier discrepancy.
             for k in sorted(set(expected) - set(actual)):
                 o = self.routes[(ifn,) + k]
+                if o.nh in self.tainted:
+                    continue
                 if o.cowait:
                     why = "waited-with-another-route-on-same-unresolved-nexthop"
                 elif o.waited:
@@ -242,6 +302,10 @@ class Oracle:
                                key, ev_idx,
                                "%s has %s/%d -> gate %d (next hop %s) but the kernel deleted that route while "
                                "%s was unresolved" % (L, k[0], k[1], actual[k], via, via), taint=via)
+                    continue
+                h = self.hist.get(key)
+                if (via in self.tainted or (h or {}).get("nh") in self.tainted
+                        or (key in self.routes and self.routes[key].nh in self.tainted)):
                     continue
                 if key in self.routes:
                     self._flag("premature-route:installed-before-nexthop-mac-known", key, ev_idx,
@@ -271,13 +335,21 @@ class Oracle:
                            % (L, k[0], k[1], actual[k]), taint=(h or {}).get("nh"))
             # wiring of routes that are rightly installed
             gate_nhs = {}
-            nh_gates = {}
+            for k in sorted(set(expected) & set(actual)):
+                nh, g = expected[k], actual[k]
+                via = self._gate_nh(L, g, updates)
+                if via is not None and via != nh and via in self.ghosts.get((ifn,) + k, ()):
+                    self.tainted.add(via)
+                    self._flag("wrong-nexthop-mac:overwritten-by-route-deleted-while-waiting-on-unresolved-nexthop",
+                               (ifn,) + k, ev_idx,
+                               "%s %s/%d -> gate %d rewrites to the MAC of %s (an incarnation of the route the kernel "
+                               "deleted while %s was unresolved); the kernel route is via %s"
+                               % (L, k[0], k[1], g, via, via, nh), taint=nh)
             for k in sorted(set(expected) & set(actual)):
                 nh, g = expected[k], actual[k]
                 if nh in self.tainted:
                     continue
                 gate_nhs.setdefault(g, set()).add(nh)
-                nh_gates.setdefault(nh, set()).add(g)
             shared = set()
             good = {}
             for g, nhs in sorted(gate_nhs.items()):
